@@ -137,6 +137,24 @@ Proof.
   rewrite (gc_assoc G C) by assumption. rewrite (gc_inv_l G C) by exact HX. apply (gc_neutral_r G C); exact HY.
 Qed.
 
+(* (gA)^-1 (gB) = A^-1 B, from the group laws on coefficient vectors *)
+Lemma rel_left_invariant g A B : valid g -> valid A -> valid B ->
+  g_compose G (g_inverse G (g_compose G g A)) (g_compose G g B) = g_compose G (g_inverse G A) B.
+Proof.
+  intros Hg HA HB.
+  pose proof (gc_inverse_valid G C g Hg) as Hig. pose proof (gc_inverse_valid G C A HA) as HiA.
+  pose proof (gc_compose_valid G C g A Hg HA) as HgA. pose proof (gc_compose_valid G C g B Hg HB) as HgB.
+  assert (Hinv : g_inverse G (g_compose G g A) = g_compose G (g_inverse G A) (g_inverse G g)).
+  { pose proof (gc_inverse_valid G C _ HgA) as HiXY. pose proof (gc_compose_valid G C _ _ HiA Hig) as HYX.
+    rewrite <- (gc_neutral_r G C (g_inverse G (g_compose G g A))) by exact HiXY.
+    assert (E2 : g_compose G (g_compose G g A) (g_compose G (g_inverse G A) (g_inverse G g)) = g_identity G).
+    { rewrite (gc_assoc G C) by assumption. rewrite <- (gc_assoc G C A) by assumption. rewrite (gc_inv_r G C) by exact HA.
+      rewrite (gc_neutral_l G C) by exact Hig. apply (gc_inv_r G C); exact Hg. }
+    rewrite <- E2. rewrite <- (gc_assoc G C) by assumption. rewrite (gc_inv_l G C) by exact HgA. apply (gc_neutral_l G C); exact HYX. }
+  rewrite Hinv. rewrite (gc_assoc G C) by assumption. rewrite <- (gc_assoc G C (g_inverse G g)) by assumption.
+  rewrite (gc_inv_l G C) by exact Hg. rewrite (gc_neutral_l G C) by exact HB. reflexivity.
+Qed.
+
 Theorem slerp_ends A B : valid A -> valid B ->
   interpolate_slerp G A B 0 = Ok A /\ interpolate_slerp G A B 1 = Ok B.
 Proof.
@@ -158,17 +176,7 @@ Proof.
   unfold rplus_v, rminus_v, tscale.
   pose proof (gc_inverse_valid G C g Hg) as Hig. pose proof (gc_inverse_valid G C A HA) as HiA.
   pose proof (gc_compose_valid G C g A Hg HA) as HgA. pose proof (gc_compose_valid G C g B Hg HB) as HgB.
-  assert (Hrel : g_compose G (g_inverse G (g_compose G g A)) (g_compose G g B) = g_compose G (g_inverse G A) B).
-  { (* (gA)^-1 (gB) = A^-1 B : uniqueness of inverses from the group laws on coefficients *)
-    assert (Hinv : g_inverse G (g_compose G g A) = g_compose G (g_inverse G A) (g_inverse G g)).
-    { pose proof (gc_inverse_valid G C _ HgA) as HiXY. pose proof (gc_compose_valid G C _ _ HiA Hig) as HYX.
-      rewrite <- (gc_neutral_r G C (g_inverse G (g_compose G g A))) by exact HiXY.
-      assert (E2 : g_compose G (g_compose G g A) (g_compose G (g_inverse G A) (g_inverse G g)) = g_identity G).
-      { rewrite (gc_assoc G C) by assumption. rewrite <- (gc_assoc G C A) by assumption. rewrite (gc_inv_r G C) by exact HA.
-        rewrite (gc_neutral_l G C) by exact Hig. apply (gc_inv_r G C); exact Hg. }
-      rewrite <- E2. rewrite <- (gc_assoc G C) by assumption. rewrite (gc_inv_l G C) by exact HgA. apply (gc_neutral_l G C); exact HYX. }
-    rewrite Hinv. rewrite (gc_assoc G C) by assumption. rewrite <- (gc_assoc G C (g_inverse G g)) by assumption.
-    rewrite (gc_inv_l G C) by exact Hg. rewrite (gc_neutral_l G C) by exact HB. reflexivity. }
+  pose proof (rel_left_invariant g A B Hg HA HB) as Hrel.
   rewrite Hrel. apply (gc_assoc G C); try assumption.
   apply (el_exp_valid G E). apply (el_scale_twf G E). apply (el_log_twf G E). apply (gc_compose_valid G C); assumption.
 Qed.
